@@ -140,6 +140,96 @@ claim("C18", "Coq proof (loop = steps; keyword-call semantics of forwarding) ove
       "canonical text.",
       "DESIGN.md section 5, C18")
 
+FAM = ("HillClimbing, StochasticHillClimbing, SimulatedAnnealing, RepulsingHillClimbing, RandomRestartHillClimbing, RandomAnnealing and "
+       "RandomSearch are modelled precisely (CoreOpt.v, Tracker.v, Algos.v: the random tape is part of the optimizer state) and tied to /repo by "
+       "S-units that replay every iterate / evaluate of real runs from the observed pre-state with the logged draws; grid search by C16's model. "
+       "The other 14 optimizers are covered by the abstract-optimizer lift theorems plus the step-level monitor only (named in the evidence). ")
+
+claim("C01", "Coq proof (closure of the move operators for all draws; contract lifted through the driver) + K/S correspondence from observed states",
+      "Theorems (Coq, closed): C01_move_random_in_box / C01_conv2pos_in_box / C01_move_climb_in_box - for EVERY tape of draws (huge, "
+      "fractional, +-inf samples; NaN excluded) a returned position has every index in [0, len-1]; C01_in_box_decodes_genuinely - such a "
+      "position is decoded without index wrapping to genuine elements; C01_driver_lift - for ANY optimizer emitting Q-positions search() "
+      "evaluates only Q-positions and the row values are the decoding of the reported position; C01_family - the seven modelled "
+      "optimizers under search(): every evaluated point in init steps, iteration steps and repeated calls is a genuine feasible point; "
+      "C01_grid_positions_in_box. " + FAM + "K-unit: conv2pos / move_random / move_climb on box corners, half-integers, 1e18, +-inf.",
+      TRUST + " Samples are not NaN (C01_nan_sample_refuted documents the int64-min position otherwise); rejection loops have fuel in the model.",
+      "DESIGN.md section 5, C01")
+
+claim("C02", "Coq proof (the rejection loops' only exit is feasible; step contract; driver lift) + K/S correspondence",
+      "Theorems (Coq, closed): C02_move_random_feasible / C02_move_climb_feasible (every Ok exit is a feasible candidate, for all draws); "
+      "C02_family_step_contract and C02_family - init positions, iteration steps, random restarts and fallbacks of the seven modelled "
+      "optimizers emit only feasible positions, so search_data and best_para never contain a violating parameter set, across calls; "
+      "C02_driver_lift for any optimizer. " + FAM + "The monitor checks every objective argument of all 22 optimizers against the constraint "
+      "(both grid directions, simplex with few inits, populations larger than inits). Known finding F-D7 (orthogonal grid has no check).",
+      TRUST, "DESIGN.md section 5, C02")
+
+claim("C08", "Coq proof (exit at first feasible candidate with exact evaluation count, drawability of every point, escape route) + watchdog monitor",
+      "Theorems (Coq, closed): C08_move_random_first_feasible - the loop exits at the FIRST feasible candidate with exactly one constraint "
+      "evaluation per candidate; C08_every_point_is_drawable - index tuples and positions correspond one to one, so every retry succeeds "
+      "with probability = feasible fraction under the uniform generator; C08_move_climb_exits_at_first_feasible; "
+      "C08_move_climb_escape_route (a sample far outside the box makes the candidate a fresh random point); "
+      "C08_family_iterate_progress (every retry consumes fresh draws). PARTIAL: the quantitative bound needs the generators' "
+      "distributions (measure theory) and is not proved. " + FAM + "S-units compare the number of constraint evaluations per step; the "
+      "monitor runs every optimizer under a per-step watchdog with lattice / band / mask / half-space constraints and directed "
+      "geometries. Known finding F-D5 (diagonal grid restart livelock).",
+      TRUST + " Probabilistic termination is argued, not proved (uniformity of random.choice, Gaussian tails).", "DESIGN.md section 5, C08")
+
+claim("C10", "Coq proof (warm-start position by name, list assembly, split round-robin, init order under the driver) + K/S correspondence",
+      "Theorems (Coq, closed): C10_key_order_irrelevant, C10_in_space_position, C10_warm_start_in_init_list (every feasible warm-start "
+      "position sits before index n_inits for every mix of random/grid/vertices counts and padding), C10_split_round_robin (every "
+      "population size), C10_family_inits_served (a fresh modelled optimizer searched for N >= n_inits steps evaluates exactly its "
+      "initial positions in order). Tied to /repo by K-units (Initializer._init_warm_start with shuffled keys, split for all lengths x "
+      "P) and an S-unit over all 22 optimizers comparing the first n_inits evaluated positions with the model's schedule; the monitor "
+      "checks warm-start evaluation, best_score >= objective(w) and chaining.",
+      TRUST + " The grid / vertices builders are not modelled (their lists enter as given lists no longer than planned).", "DESIGN.md section 5, C10")
+
+claim("C15", "Coq proof (driver facts for every objective; tracker facts; totality of the hill-climbing evaluate) + fault enumeration over score masks",
+      "Theorems (Coq, closed): C15_nan_never_best and C15_no_rows_lost (driver, every optimizer, every pattern of non-finite scores), "
+      "C15_valid_lists_exact, C15_nan_never_adopted, C15_hc_evaluate_total (never fails for any score), "
+      "C15_family_keeps_proposing_legal_points (the step contract is score independent). " + FAM + "Fault enumeration: per optimizer "
+      "(all 22) all-invalid prefixes of every length for NaN / +inf / -inf and random mixtures (thorough: all 4^4 masks); no raise, no "
+      "lost step, best = best non-NaN score, legal points afterwards. Known findings F-D12a..e (crash when too few finite scores exist "
+      "by the end of initialisation: DownhillSimplex, Powell, Lipschitz, Forest, PatternSearch).",
+      TRUST + " 'never raises' is proved for the driver and the modelled family, monitored for the rest.", "DESIGN.md section 5, C15")
+
+claim("C19", "Coq proof (history-indexed grounding invariant through the driver; monotonicity) + S correspondence of evaluate",
+      "Theorems (Coq, closed): C19_family_step_grounded / C19_family_grounded - for the seven modelled optimizers, any draws and any "
+      "(also non-finite) scores, after every search() step the tracked current and best pairs and the valid lists consist of pairs "
+      "that were really evaluated (position with ITS score); C19_driver_lift for any optimizer with such an invariant; "
+      "C19_best_monotone, C19_current_monotone_greedy. " + FAM + "The monitor checks grounding and monotonicity after every step for all "
+      "optimizers and every population member (lattice constraints to force the fallback paths).",
+      TRUST, "DESIGN.md section 5, C19")
+
+claim("C07", "Coq proof (non-interference of ambient generator state for abstract generators) + seeding-event correspondence + paired runs",
+      "Theorems (Coq, closed, for ARBITRARY seeding / drawing functions): C07_seed_overrides_ambient (with an integer random_state the "
+      "generator states after construction, hence any function of them, do not depend on the ambient states), C07_random_seed_value, "
+      "C07_replay_none (random_state=None is replayed through random_seed exactly when nth_process is None or 0; "
+      "C07_replay_needs_process_zero refutes it otherwise), C07_members_inherit (nested optimizers re-seed from the seeded numpy "
+      "generator). PARTIAL: that the library uses no other entropy source is not expressible in a model; it is covered by the K-unit "
+      "(every random.seed / numpy.random.seed / seed-feeding randint event of every class's construction must form a well-formed "
+      "seeding trace of the model) and by the paired-run monitor over all 22 optimizers.",
+      TRUST + " `run` is an arbitrary function of the two generator states: that everything stochastic goes through them is the monitored part.",
+      "DESIGN.md section 5, C07")
+
+claim("C09", "Coq proof (score-blindness of random search; orientation lemmas) + S correspondence; paired sign test as monitor",
+      "Theorems (Coq, closed): C09_random_search_score_blind (the same points whatever scores come back; grid search's model takes no "
+      "scores at all), C09_eval2current_orientation / C09_eval2best_orientation (a pair is adopted exactly when strictly greater; the "
+      "mirrored statement is refuted), C09_best_of_window_is_maximal, C09_worse_move_taken_when_p_ge_one (structural cause of D15). "
+      "PARTIAL: the first sentence of the property is a paired statistical test over sampled trajectories - no theorem can state it; it "
+      "is decided per optimizer by the monitor (f vs -f, fixed seeds, 3/4 margin), while a sign error in a modelled mechanism breaks "
+      "the S-units. Known findings F-D15a..c (StochasticHillClimbing, SimulatedAnnealing, ParallelTempering fail the sign test).",
+      TRUST + " Population ranking, particle attraction, simplex reflection and acquisition ordering are not modelled here (C17 covers the latter).",
+      "DESIGN.md section 5 and 6, C09")
+
+claim("C17", "Coq proof (training-set alignment, proposal rule, no repeat without replacement) + S correspondence with captured acquisition vectors",
+      "Theorems (Coq, closed): C17_training_set_aligned (after any history X_sample / Y_sample = warm-start set ++ exactly the "
+      "finite-scored evaluations paired in order), C17_proposal_is_argmax (a proposal accepted by the rule is a candidate no candidate "
+      "exceeds), C17_no_repeat_without_replacement. Surrogate fitting and acquisition values are oracles. Tied to /repo by S-units on "
+      "Bayesian / Forest / TPE / Lipschitz runs (X, Y, all_pos_comb before/after every step; the acquisition vector captured from the "
+      "fitted model and the proposal checked against it in Coq) and a K-unit for init_warm_start_smbo (in-space, out-of-space, "
+      "non-finite rows).",
+      TRUST + " sklearn / scipy numerics are oracles; NaN acquisition values are outside the guarantee (documented example).", "DESIGN.md section 5, C17")
+
 
 def main():
     props = [json.loads(l) for l in open(os.path.join(VERIF, "properties.jsonl"))]
